@@ -22,6 +22,10 @@ CHECKS = {
    tech='symbolic execution of the crate MIR of the Zinc writer over well-formed and ill-formed value shapes with symbolic leaves; a feasible panic path is a violation; witnesses replayed natively',
    text='The Zinc writer (ToZinc for every kind) is executed symbolically over the C01 catalogue plus ill-formed shapes (arbitrary Unicode in Ref/Symbol/XStr type/column names, empty strings, NaN/INF with units, grids with zero columns, rows whose keys are not columns); no feasible path may end in a panic (slice, index, unwrap, overflow). One model per path is replayed natively.',
    note='Bounds as C01. Display/Hayson encoders are not part of this check yet. Unicode case mapping of a symbolic non-ASCII char is fixed to the solver\'s choice on that path (stated sampling step inside an otherwise symbolic path).'),
+ 'C12': dict(engine='mirsym+kani', cat='model_checking', design='7 (C12), 3, 4',
+   tech='symbolic execution (z3, bit-vectors + IEEE floats) of the crate\'s eq/cmp/partial_cmp/hash/clone MIR on pairs and triples of values with symbolic leaves; Kani/CBMC proof harnesses for Coord over all f64 bit patterns; witnesses replayed natively',
+   text='For every kind (18) a pair - and for 7 kinds a triple - of values with symbolic leaves (all non-NaN f64 bit patterns incl. +-0 and units none/meter/second, 1-byte strings, Ref with/without dis, symbolic calendar fields, equal instants in different zones, lists <= 2, dicts over keys {a,b,c}, grids <= 1 row) and cross-kind pairs is pushed through the real PartialEq, Ord, PartialOrd, Hash (recorded hash stream) and Clone implementations; every feasible path must satisfy reflexivity, symmetry, clone==orig, eq=>equal hash stream, cmp==Equal<=>eq, partial_cmp agrees with cmp, antisymmetry and (triples) transitivity. Kani proves the Coord laws for all 2^128 float pairs. Each path\'s witness is re-evaluated natively (same facts, same violated laws).',
+   note='Bounds: strings 1 byte, collections <= 2 entries, one quarter of the 306 cross-kind pairs per quick run (seed-rotated; all in thorough). chrono\'s own Eq/Ord/Hash are modelled as instant comparison (trusted). NaN excluded as the property says.'),
 }
 NA = {
  'C14': 'quantifies over thread interleavings on dashmap\'s sharded locks: Kani has no thread model, mirsym is sequential and dashmap is outside the MIR dump; no solver-based engine on this image reaches it (DESIGN.md section 8)',
@@ -49,9 +53,9 @@ m = {
  'hooks': {'guard': 'none', 'enable': 'no source hooks: engine M reads the MIR of private items, engine K and the replay binary use public items only',
            'baseline_off_cmd': 'cd /repo && cargo test --workspace --no-fail-fast --offline', 'source_commits': [], 'add_only': True},
  'engines': [
-  {'name': 'mirsym', 'path': '/verif/mirsym', 'serves_properties': [p for p in ids if CHECKS.get(p, {}).get('engine') == M],
+  {'name': 'mirsym', 'path': '/verif/mirsym', 'serves_properties': [p for p in ids if CHECKS.get(p, {}).get('engine', '').startswith(M)],
    'kind_free_text': 'path-based symbolic executor for the MIR rustc prints for /repo (regenerated per run), z3 decides branches and property queries, std/chrono/serde are environment models; every path replayed natively through /verif/replay'},
-  {'name': 'kani', 'path': '/verif/kani', 'serves_properties': [p for p in ids if CHECKS.get(p, {}).get('engine') == 'kani'],
+  {'name': 'kani', 'path': '/verif/kani', 'serves_properties': [p for p in ids if 'kani' in CHECKS.get(p, {}).get('engine', '')],
    'kind_free_text': 'Kani 0.68 / CBMC proof harnesses in an external crate with a path dependency on /repo'},
  ],
  'checks': checks,
